@@ -10,7 +10,8 @@
     recorded entries have strictly increasing stamps and lines shorter than
     the entry limit. *)
 From Coq Require Import ZArith NArith List Bool String.
-From AGH Require Import Base.Run Model.QLogFile Model.QLog Model.QLogCodec Proofs.QLog Proofs.QLogCursor Proofs.QLogCodec.
+From AGH Require Import Base.Run Model.QLogFile Model.QLog Model.QLogCodec Proofs.QLog Proofs.QLogCursor Proofs.QLogCodec
+  Proofs.QLogCodecScan Proofs.QLogCodecDec Proofs.QLogCodecLoc.
 Import ListNotations.
 Local Open Scope Z_scope.
 
@@ -247,17 +248,67 @@ Theorem C07_host_located : forall e, time_text (slot e sT) = true -> located (en
 Proof. exact located_qh. Qed.
 Print Assumptions C07_host_located.
 
+(** The same for the IP key and for the QH key with ANY time text, and for the
+    CID key (when the ClientID is empty the field is omitted and the key
+    pattern occurs nowhere in the line).  Reason: in escaped text every quote
+    byte is preceded by a backslash ([qesc_enc]), so a key pattern
+    quote-NAME-quote-colon-quote cannot start inside a string value or at its
+    closing quote, and every other key differs from NAME; the field order is
+    fixed.  [rw_numbers_ok e]: the number tokens kept in a rewrite response
+    ([RNumber], values that were not strings when a legacy line was decoded)
+    consist of number characters, which is all the scanner can deliver and
+    all json.Marshal writes; the premise cannot be dropped
+    (C07_cid_located_needs_numbers). *)
+Theorem C07_host_located_any : forall e, located (encode e) pQH (slot e sQH).
+Proof. exact located_qh_any. Qed.
+Print Assumptions C07_host_located_any.
+
+Theorem C07_ip_located : forall e, located (encode e) pIP (slot e sIP).
+Proof. exact located_ip. Qed.
+Print Assumptions C07_ip_located.
+
+Theorem C07_cid_located : forall e, rw_numbers_ok e -> located (encode e) pCID (slot e sCID).
+Proof. exact located_cid. Qed.
+Print Assumptions C07_cid_located.
+
+Example C07_cid_located_needs_numbers :
+  ~ rw_numbers_ok bad_number_entry /\
+  slot bad_number_entry sCID = [] /\
+  read_json_value (encode bad_number_entry) pCID = B "zzz"%string /\
+  ~ located (encode bad_number_entry) pCID (slot bad_number_entry sCID).
+Proof. exact located_cid_needs_numbers. Qed.
+Print Assumptions C07_cid_located_needs_numbers.
+
+(** Every quote byte of escaped text is preceded by a backslash. *)
+Theorem C07_escaped_quotes : forall s, qesc false (enc_str s) = true.
+Proof. exact qesc_enc. Qed.
+Print Assumptions C07_escaped_quotes.
+
 (** The pre-match on the raw line over-approximates the match on the decoded
-    entry WITHOUT any assumption on the characters of host, address and
-    ClientID.  Full statement: *)
-Definition C07_quickmatch_real_lines_statement : Prop := forall c e v a strict,
+    entry WITHOUT any assumption on the characters of time, host, address and
+    ClientID.  Statement as first written (round 2a), with an RFC3339 time
+    text as premise and no premise on the rewrite numbers: *)
+Definition C07_quickmatch_real_lines_statement_v1 : Prop := forall c e v a strict,
   time_text (slot e sT) = true ->
   term_match c (raw_entry (slot e sQH) (slot e sIP) (slot e sCID)) v a strict = true ->
   quick_line c (encode e) (CTerm v a strict) = true.
 
-(** Proved with the position of the IP and CID keys as premises (the QH key
-    is located by C07_host_located; the other two are checked by the
-    correspondence on every real line: readJSONValue against the model). *)
+(** Statement as proved: the time premise is gone (any text), the premise on
+    the number tokens of a rewrite response is new and visible (without it
+    the CID key pattern can be planted in the line, see above). *)
+Definition C07_quickmatch_real_lines_statement : Prop := forall c e v a strict,
+  rw_numbers_ok e ->
+  term_match c (raw_entry (slot e sQH) (slot e sIP) (slot e sCID)) v a strict = true ->
+  quick_line c (encode e) (CTerm v a strict) = true.
+
+Theorem C07_quickmatch_real_lines : forall c e v a strict,
+  rw_numbers_ok e ->
+  term_match c (raw_entry (slot e sQH) (slot e sIP) (slot e sCID)) v a strict = true ->
+  quick_line c (encode e) (CTerm v a strict) = true.
+Proof. exact quick_line_real. Qed.
+Print Assumptions C07_quickmatch_real_lines.
+
+(** Kept from round 2a: the same with the key positions as premises. *)
 Theorem C07_quickmatch_real_lines_partial : forall c e v a strict,
   located (encode e) pQH (slot e sQH) -> located (encode e) pIP (slot e sIP) ->
   located (encode e) pCID (slot e sCID) ->
@@ -265,6 +316,19 @@ Theorem C07_quickmatch_real_lines_partial : forall c e v a strict,
   quick_line c (encode e) (CTerm v a strict) = true.
 Proof. exact quick_line_over_approx. Qed.
 Print Assumptions C07_quickmatch_real_lines_partial.
+
+(** Premises satisfiable and the claim not vacuous: an entry without ClientID
+    whose time, host, rule text, rule address and a rewrite value all hold
+    the text of the CID key pattern (and the host that of the IP key). *)
+Example C07_quickmatch_real_lines_example :
+  rw_numbers_ok pattern_entry /\
+  slot pattern_entry sCID = [] /\
+  read_json_value (encode pattern_entry) pCID = [] /\
+  read_json_value (encode pattern_entry) pIP = B "1.2.3.4"%string /\
+  has_bs (read_json_value (encode pattern_entry) pQH) = true /\
+  quick_line no_clients (encode pattern_entry) (CTerm (B "1.2.3.4"%string) [] true) = true.
+Proof. exact located_pattern_example. Qed.
+Print Assumptions C07_quickmatch_real_lines_example.
 
 (** The pre-match as it was before repair 5f4b967 rejects a line whose
     decoded entry matches (host a&b.example.org, term a&b): the finding. *)
@@ -280,15 +344,46 @@ Print Assumptions C07_quickmatch_unfixed_refuted.
 
 (** The whole entry through json.Marshal + decodeLogEntry comes back
     unchanged ("returned ... with the client, question, answer, upstream and
-    filtering result it was recorded with", file part).  NOT proved as a
-    universal statement: what is proved is the string layer above (every
-    field text survives escaping + scanning) and the statement's instance
-    below; what is missing is the composition over the fields (scanning of
-    the number / literal tokens and the fold of the token decoder over the
-    fields of [encode e]).  The correspondence evaluates [encode] and [decode]
-    on every generated entry against the real encoder and decoder. *)
+    filtering result it was recorded with", file part), for EVERY entry of
+    [codec_dom o] (texts well-formed UTF-8 and accepted by the Go parsers the
+    decoder calls, integers in int64, rewrite responses non-empty lists of
+    strings under distinct uint16 keys; excluded are the two by-design
+    conversions of the decoder: reason RewrittenAutoHosts with an IPList is
+    turned into a rewrite result, a rewrite result with neither response nor
+    code is written as {} and read back as absent).  No normalisation is
+    needed inside this domain: ill-formed UTF-8 (replaced by U+FFFD) is
+    outside it.  Proof: [scan (encode e) = t_encode e] (the scanner is
+    compositional over strings, numbers, the literal true, fields, joined
+    lists with omitted members, objects and arrays; decimal texts of all
+    int64 / uint16 values are read back by parse_int / parse_u16), then the
+    token decoder over [t_encode e]: every key handler consumes exactly the
+    value written and returns to the key loop; IPList, Rules and the Response
+    map by induction with the decoded prefix as invariant. *)
 Definition C07_codec_roundtrip_statement : Prop :=
   forall o e, codec_dom o e -> decode o (encode e) = (false, e).
+
+Theorem C07_codec_roundtrip : forall o e, codec_dom o e -> decode o (encode e) = (false, e).
+Proof. exact codec_roundtrip. Qed.
+Print Assumptions C07_codec_roundtrip.
+
+(** The two layers separately. *)
+Theorem C07_scan_encode : forall e, texts_ok e -> scan (encode e) = t_encode e.
+Proof. exact scan_encode. Qed.
+Print Assumptions C07_scan_encode.
+
+Theorem C07_decode_tokens : forall o e, codec_dom o e ->
+  fold_left (dstep o) (t_encode e) (DTop, blank) = (DTop, e).
+Proof. exact dec_tokens. Qed.
+Print Assumptions C07_decode_tokens.
+
+(** strconv's decimal text of every int64 / uint16 is parsed back. *)
+Theorem C07_int_roundtrip : forall z, (- 2 ^ 63 <= z < 2 ^ 63) -> parse_int (dec_bytes z) = Some z.
+Proof. exact parse_int_dec. Qed.
+Print Assumptions C07_int_roundtrip.
+
+Theorem C07_u16_roundtrip : forall z, (0 <= z < 65536) -> parse_u16 (dec_bytes z) = Some z.
+Proof. exact parse_u16_dec. Qed.
+Print Assumptions C07_u16_roundtrip.
 
 Example C07_codec_roundtrip_example :
   codec_dom all_true rich_entry /\
